@@ -28,12 +28,16 @@ impl IntoParallelSource for Range<u64> {
     type Iter = Range<u64>;
 
     fn generate_iterator(self, index: CoordUInt, peers: CoordUInt) -> Self::Iter {
-        let n = self.end - self.start;
+        // an empty or reversed range has no elements
+        let n = self.end.saturating_sub(self.start);
         let chunk_size = (n.saturating_add(peers - 1)) / peers;
-        let start = self.start.saturating_add(index * chunk_size);
+        let start = self
+            .start
+            .saturating_add(index.saturating_mul(chunk_size))
+            .min(self.end.max(self.start));
         let end = (start.saturating_add(chunk_size))
             .min(self.end)
-            .max(self.start);
+            .max(start);
 
         start..end
     }
@@ -45,17 +49,19 @@ macro_rules! impl_into_parallel_source_range {
             type Iter = Range<$t>;
 
             fn generate_iterator(self, index: CoordUInt, peers: CoordUInt) -> Self::Iter {
-                let index: i64 = index.try_into().unwrap();
-                let peers: i64 = peers.try_into().unwrap();
-                let n = self.end as i64 - self.start as i64;
-                let chunk_size = (n.saturating_add(peers - 1)) / peers;
-                let start = (self.start as i64).saturating_add(index * chunk_size);
-                let end = (start.saturating_add(chunk_size))
-                    .min(self.end as i64)
-                    .max(self.start as i64);
+                // 128 bit arithmetic: no bound of any supported type overflows, and an empty or
+                // reversed range (hi == lo below) has no elements
+                let index = index as i128;
+                let peers = peers as i128;
+                let lo = self.start as i128;
+                let hi = (self.end as i128).max(lo);
+                let n = hi - lo;
+                let chunk_size = (n + peers - 1) / peers;
+                // both bounds stay inside [lo, hi], so they fit the type
+                let start = (lo + index * chunk_size).min(hi);
+                let end = (start + chunk_size).min(hi);
 
-                let (start, end) = (start.try_into().unwrap(), end.try_into().unwrap());
-                start..end
+                (start as $t)..(end as $t)
             }
         }
     };
